@@ -793,25 +793,41 @@ def loop_over(fn, var, iter_text=None):
 
 # ----------------------------------------------------------------------------- fragments
 class Out:
-    def __init__(self):
-        self.consts, self.formulas, self.errors = [], [], {}
+    """collects the generated definitions. `baseline` (tools/fragment_baseline.json, captured from the unchanged
+    tree with `py2lean.py --snapshot`) maps a fragment name to the text it generated there: when a fragment can no
+    longer be translated the last known translation is emitted instead, so that the model still builds and the
+    correspondence check can go on to look for a concrete failing input; the fragment is still reported in
+    `errors` (the check then treats the translator tie of that fragment as broken)."""
 
-    def const(self, name, fn):
+    def __init__(self, baseline=None):
+        self.consts, self.formulas, self.errors = [], [], {}
+        self.baseline = baseline or {}
+        self.snapshot = {}
+        self.fallbacks = []
+
+    def _run(self, kind, name, fn):
+        dst = self.consts if kind == 'const' else self.formulas
         try:
-            self.consts.append(fn())
+            r = fn()  # one definition, or a list of definitions
+            r = r if isinstance(r, list) else [r]
+            self.snapshot[f'{kind}:{name}'] = r
+            dst.extend(r)
+            return
         except Untranslatable as ex:
             self.errors[name] = str(ex)
         except Exception as ex:  # a translator crash is a failed translation, not a pass
             self.errors[name] = f'{type(ex).__name__}: {ex}'
+        old = self.baseline.get(f'{kind}:{name}')
+        if old is not None:
+            self.fallbacks.append(name)
+            dst.extend(['-- FALLBACK (fragment no longer translatable on the current source; last known translation kept)\n' + t
+                        for t in old])
+
+    def const(self, name, fn):
+        self._run('const', name, fn)
 
     def formula(self, name, fn):
-        try:
-            r = fn()  # one definition, or a list of definitions
-            self.formulas.extend(r if isinstance(r, list) else [r])
-        except Untranslatable as ex:
-            self.errors[name] = str(ex)
-        except Exception as ex:
-            self.errors[name] = f'{type(ex).__name__}: {ex}'
+        self._run('formula', name, fn)
 
 
 def the(xs, what):
@@ -820,8 +836,12 @@ def the(xs, what):
     return xs[0]
 
 
-def generate(repo, outdir, write_if_changed):
-    o = Out()
+BASELINE = os.path.join(os.path.dirname(os.path.abspath(__file__)), 'fragment_baseline.json')
+
+
+def generate(repo, outdir, write_if_changed, snapshot_to=None):
+    import json
+    o = Out(json.load(open(BASELINE)) if os.path.exists(BASELINE) and not snapshot_to else None)
     import fragments
     fragments.emit(o, repo, sys.modules[__name__])
     consts = ('/- GENERATED by tools/py2lean.py from the /repo working tree — do not edit. -/\n'
@@ -842,10 +862,18 @@ def generate(repo, outdir, write_if_changed):
     write_if_changed(os.path.join(outdir, 'Consts.lean'), consts)
     write_if_changed(os.path.join(outdir, 'Formulas.lean'), formulas)
     write_if_changed(os.path.join(outdir, 'FormulasRat.lean'), formulas_rat)
+    if snapshot_to:
+        if o.errors:
+            raise SystemExit(f'refusing to snapshot: untranslatable fragments {o.errors}')
+        with open(snapshot_to, 'w') as f:
+            json.dump(o.snapshot, f, indent=0, sort_keys=True)
     return o.errors
 
 
 if __name__ == '__main__':
+    snap = '--snapshot' in sys.argv
+    if snap:
+        sys.argv.remove('--snapshot')
     repo = sys.argv[1] if len(sys.argv) > 1 else '/repo'
     here = os.path.dirname(os.path.abspath(__file__))
     sys.path.insert(0, here)
@@ -860,5 +888,8 @@ if __name__ == '__main__':
                 with open(path, 'w') as f:
                     f.write(text)
     lean = sys.argv[2] if len(sys.argv) > 2 else os.environ.get('DEEPROB_LEAN', LEAN)
-    errs = generate(repo, os.path.join(lean, 'DeeprobModel', 'Generated'), write_if_changed)
+    if snap:
+        errs = generate(repo, os.path.join(lean, 'DeeprobModel', 'Generated'), write_if_changed, snapshot_to=BASELINE)
+    else:
+        errs = generate(repo, os.path.join(lean, 'DeeprobModel', 'Generated'), write_if_changed)
     print(errs)
